@@ -76,6 +76,7 @@ def rule_A(run, prog):
     rid = "C01-A"
     # 1. time-independent Redfield, tensor form, end to end from _implementation
     selfo, it = tensors.assemble(prog, RED, as_operators=False)
+    tensors.coverage_obligation(run, "C01-A", "%s._implementation[tensor]" % RED.split(".")[-1], it, "quantarhei/qm/liouvillespace")
     facts = tensors.real_facts(it)
     f = prog.find_method(prog.cls(RED), "_convert_operators_2_tensor")
     tensors.tensor_identities(run, rid, "RedfieldRelaxationTensor._implementation->data",
@@ -85,6 +86,7 @@ def rule_A(run, prog):
 
     # 2. Lindblad form, tensor form
     selfo, it = tensors.assemble(prog, LIND, as_operators=False)
+    tensors.coverage_obligation(run, "C01-A", "%s._implementation[tensor]" % LIND.split(".")[-1], it, "quantarhei/qm/liouvillespace")
     facts = tensors.real_facts(it, extra_real=["KK", "rates"])
     f = prog.find_method(prog.cls(LIND), "_implementation")
     tensors.tensor_identities(run, rid, "LindbladForm._implementation->data",
@@ -94,7 +96,9 @@ def rule_A(run, prog):
 
     # 3. time-dependent Redfield
     selfo, it = tensors.assemble(prog, TDRED, as_operators=False)
+    tensors.coverage_obligation(run, "C01-A", "%s._implementation[tensor]" % TDRED.split(".")[-1], it, "quantarhei/qm/liouvillespace")
     so, ito = tensors.assemble(prog, TDRED, as_operators=True)
+    tensors.coverage_obligation(run, "C01-A", "%s._implementation[operators]" % TDRED.split(".")[-1], ito, "quantarhei/qm/liouvillespace")
     kma = so.get("Km")
     if not isinstance(kma, Array):
         raise AnalysisError("TDRedfieldRelaxationTensor: operator form does not store Km")
@@ -123,6 +127,7 @@ def rule_A(run, prog):
     # 4. operator form: RedfieldRelaxationTensor.apply on the operators
     #    produced by _implementation
     selfo, it = tensors.assemble(prog, RED, as_operators=True)
+    tensors.coverage_obligation(run, "C01-A", "%s._implementation[operators]" % RED.split(".")[-1], it, "quantarhei/qm/liouvillespace")
     apply_f = prog.find_method(prog.cls(RED), "apply")
     rho = Array.opaque("rho", 2)
     oper = Obj("oper", attrs={"data": rho})
